@@ -7,3 +7,4 @@ import DastardV.Props.C14
 import DastardV.Model.C18
 import DastardV.Props.C18
 import DastardV.Model.C09
+import DastardV.Props.C09
